@@ -286,7 +286,7 @@ def run(ck):
   method_constraint_probe(ck)
   c02_methods.run(ck)
   c02_greenlet.run(ck)      # blocking (FL) blocks: WrapGreenletPass re-keying of all_constraints, every pass group
-  n = 200 if ck.tier == 'quick' else 5000
+  n = 200 if ck.tier == 'quick' else 1500
   lines, meta = [], []
   for _ in range(n):
     d = rtlgen.generate_slices(rng) if rng.random() < 0.3 else rtlgen.generate(rng, max_blocks=8)
@@ -324,7 +324,7 @@ def run(ck):
       if got != y:
         ck.disagreement('SimpleSchedulePass≈Kahn(any pick)', {'source': src, 'order': y}, got, y)
   # explicit constraints
-  m = 60 if ck.tier == 'quick' else 1200
+  m = 60 if ck.tier == 'quick' else 400
   made = 0
   tries = 0
   while made < m and tries < m * 6:
